@@ -5,24 +5,38 @@ ID = "C19"
 LEAN_MODULES = ["Gv.Props.C19"]
 REQUIRED_THEOREMS = ["Gv.Props.C19." + n for n in [
     "queries_pure", "copies_own_data", "sampling_shares", "allocRows_disjoint_and_preserves", "allocRows_obs",
-    "write_frame", "writes_frame", "mutating_copy_preserves_original"]]
-LEVEL_TEXT = ("Lean theorems (kernel evaluation) over mutation facts regenerated from the source on every run: no listed query "
-              "reaches a write to sequence data through its input (call-graph closure), every listed copy operation hands only "
-              "freshly allocated buffers to the new object; plus ownership-model theorems: freshly allocated rows share no buffer "
-              "with an existing container and writes outside a container never change what it shows, for arbitrary mutation "
-              "sequences. Tied to /repo by the regeneration itself and by a run-time check: snapshot before/after every query, "
-              "overlap of the backing arrays (slice pointers), in-place mutation of the copy and of the original.")
+    "write_frame", "writes_frame", "mutating_copy_preserves_original",
+    "typed_facts_wellformed", "queries_pure_typed", "copies_own_data_typed", "sampling_shares_typed", "pwaligner_isolated_typed"]]
+LEVEL_TEXT = ("Lean theorems (kernel evaluation) over mutation facts regenerated from the source on every run, by two independent "
+              "stages (syntactic go/ast; type-checked go/types with resolved callees, all implementations of interface calls, "
+              "allocation-site freshness, writes classified by the type of the written location): no listed query reaches a write to "
+              "sequence data through its input (call-graph closure), every listed copy operation hands only freshly allocated "
+              "buffers to the new object / returns nothing that shares memory with an input, the pairwise aligner's constructor "
+              "result shares nothing with its arguments and its methods write only inside it; plus ownership-model theorems: freshly "
+              "allocated rows share no buffer with an existing container and writes outside a container never change what it shows, "
+              "for arbitrary mutation sequences. Tied to /repo by the regeneration itself and by a run-time check: snapshot "
+              "before/after every query, overlap of the backing arrays (slice pointers), in-place mutation of the copy and of the "
+              "original.")
 LEVEL_NOTE = ("Trusted: Lean kernel; tools/extract/mutfacts.go (syntactic go/ast analysis: name-based call graph, identifiers assigned "
-              "from make/New*/Clone are fresh; types are read from declarations, not inferred); harness/oracle/driver.")
-TECHNIQUE = "Lean 4 proof (decide +kernel over regenerated mutation facts; heap ownership model) + run-time aliasing correspondence"
+              "from make/New*/Clone are fresh; types are read from declarations, not inferred) for queries_pure / copies_own_data; "
+              "tools/mutscan (go/packages type check + flow-insensitive region analysis with summaries) and the reviewed lists "
+              "roExternals / dataStructs / dataContainers of Model/MutFactsT.lean for the ..._typed theorems; harness/oracle/driver.")
+TECHNIQUE = "Lean 4 proof (decide +kernel over regenerated mutation facts, syntactic and type-checked; heap ownership model) + run-time aliasing correspondence"
 RULE = ("alignments of 1..5 rows x 1..9 columns (nucleotide, protein), every query group (writers, statistics, coordinates, copies, "
         "distances, pairwise aligner) and every copy operation followed by in-place mutations of the copy and of the original; "
         "non-trivial = at least 2 rows and 2 columns")
-PARTIAL = ["pairwise alignment (pwaligner works on clones stored in its fields) and phasing are checked at run time (inputs compared "
-           "before/after); Phase/MLDist/DistMatrix are also in the facts theorem, pwaligner.Alignment is not (name-based call graph "
-           "reaches seq.Reverse on its cloned fields)",
-           "the ownership model assumes the shape 'new object from freshly allocated buffers' that the facts theorem "
-           "`copies_own_data` establishes syntactically; slices handed out by accessors (SequenceChar) are outside the property"]
+PARTIAL = ["phaser.Phase and seqbag.LongestORF are in the facts theorem of the syntactic stage only (queries_pure) and are checked at run "
+           "time (inputs compared before/after): the type-checked analysis is flow-insensitive and cannot separate Phase's re-assigned "
+           "parameter `orfs` / LongestORF's `bestseq` (input row or reversed clone) from the input; everything else, the interface "
+           "queries and the pairwise aligner (pwaligner_isolated_typed) are proved over the type-checked facts as well",
+           "the ownership model assumes the shape 'new object from freshly allocated buffers' that the facts theorems "
+           "`copies_own_data` (syntactically) and `copies_own_data_typed` (allocation sites, go/types) establish; slices handed out "
+           "by accessors (SequenceChar) are outside the property"]
+TRUSTED = ["tools/mutscan: values of type error and strings carry no mutable reference; no unsafe / reflect / cgo writes; a store into a "
+           "package-level variable through a local alias is not seen (direct stores are: typed_facts_wellformed)",
+           "Model/MutFactsT.lean roExternals: the listed standard-library functions (bytes.Buffer.Write, fmt.*, bytes.*, regexp "
+           "matching, io.Writer.Write) do not write through their arguments; a function parameter called inside Iterate* is "
+           "accounted at the site of the literal passed by the caller (its parameters are unified with that call's receiver)"]
 
 NT = "ACGTacgtN-"
 # RNA (U/u: goalign's complement table is not an involution on them) and the IUPAC ambiguity codes in both cases
